@@ -5,6 +5,8 @@ Driver for C19. Ops (kept in step with go/internal/c19):
 * `read <hex>` — feed the bytes to the frame reader until it fails:
   `<frame> <frame> … end=<eof|ueof|unknown|panic>`
 * `m <msg>` … `run` — same as `log`, the messages given one per op
+* `m <msg>` … `runmod` / `runws` — the same through marbl.Modifier / into marbl.Handler with a websocket
+  subscriber (the model reads back `subscriberStream .fresh`: the buffers the retaining writer kept)
 * `log <msg> <msg> …` — the messages are logged concurrently; the model writes the frames of the
   messages one message after the other (one of the interleavings; by
   `interleaved_messages_recovered` the projection below does not depend on which), reads the
@@ -143,14 +145,16 @@ def showMsg (got : List Frame) (i : Nat) (m : Msg) : String :=
   let rets := (if m.noBody && m.mt == 1 then m.reads else (bodyRun m.mt (m.id.take 8) 0 m.reads).1).map showRet
   s!"m{i}=" ++ joinOr "," hs ++ "|" ++ joinOr "," ds ++ "|" ++ joinOr "," rets
 
-def logOp (toks : List String) : String :=
+/-- `viaHandler`: the stream's writer retains the slices (marbl.Handler); what is parsed back is what its
+subscriber receives (`subscriberStream`, equal to `encodeAll` by `retaining_writer_sees_written`). -/
+def logOp (toks : List String) (viaHandler : Bool := false) : String :=
   match toks.mapM parseMsg with
   | none => "bad-op"
   | some ms =>
     if ms.any (fun m => !idOk m.id) then "panic" else     -- newFrame: id[:8]
     let frames := (ms.map fun m =>
       if m.mt == 1 then requestFrames m.id m.hdrs m.noBody m.reads else messageFrames m.mt m.id m.hdrs m.reads).flatten
-    let r := readAll (encodeAll frames)
+    let r := readAll (if viaHandler then subscriberStream .fresh frames else encodeAll frames)
     let idx := List.range ms.length
     " ".intercalate ((idx.zip ms).map (fun p => showMsg r.1 p.1 p.2) ++
       [s!"end={showStop r.2}", s!"frames={r.1.length}"])
@@ -162,6 +166,7 @@ def step (s : St) (toks : List String) : St × String :=
   | ["m", tok] => (s ++ [tok], "queued")                  -- same as `log`, one message per op (shrinks better)
   | ["run"] => ([], if s.isEmpty then "bad-op" else logOp s)
   | ["runmod"] => ([], if s.isEmpty then "bad-op" else logOp s)   -- through marbl.Modifier: same frames, ids canonicalised by the harness
+  | ["runws"] => ([], if s.isEmpty then "bad-op" else logOp s true)    -- into marbl.Handler (retains the slices) + websocket subscriber: same frames
   | _ => (s, "bad-op")
 
 end Martian.Drv.C19
